@@ -50,6 +50,9 @@ def project(rng):
         else:
             y += "%s:\n%s" % (sec, block)
     files[".thailint.yaml"] = y
+    # one file name in four places of differing status (plain, per-linter-ignored directory, test directory, source root)
+    for d in ("pkg", "pkg/gen", "tests", "src"):
+        files[d + "/calc.py"] = "def gross(net, log):\n    print(net)\n    log.info(f\"net {net}\")\n    return net * 4711 + 2599\n"
     # enough files for --parallel to really use its worker pool (it falls back to the sequential path below 2 x workers files)
     for i in range(14):
         files["pkg/fill/f%02d.py" % i] = "def fill_%d(a):\n    print(a)\n    return a * %d\n" % (i, 10007 + i)
@@ -57,6 +60,9 @@ def project(rng):
 
 
 PATHTOK = re.compile(r"(?<![\w/.-])((?:/|\.\.?/)?[\w.-]+(?:/[\w.-]+)+)")
+
+
+BARETOK = re.compile(r"(?<![\w/.-])([\w-]+\.(?:py|ts|tsx|js|jsx|rs|md))(?![\w/.-]*/)")
 
 
 def norm_path(p: str, root: str, cwd: str) -> str:
@@ -74,7 +80,7 @@ def norm_path(p: str, root: str, cwd: str) -> str:
     return p
 
 
-def norm_msg(msg: str, root: str, cwd: str) -> str:
+def norm_msg(msg: str, root: str, cwd: str, bare_names: bool = False) -> str:
     msg = msg.replace(os.path.realpath(root) + "/", "").replace(root + "/", "")
     rel = os.path.relpath(root, cwd)
     if rel not in (".", ""):
@@ -84,7 +90,15 @@ def norm_msg(msg: str, root: str, cwd: str) -> str:
         tok = m.group(1)
         cand = norm_path(tok, root, cwd)
         return cand if os.path.exists(os.path.join(root, cand)) else tok
-    return PATHTOK.sub(sub, msg)
+    msg = PATHTOK.sub(sub, msg)
+    if not bare_names:
+        return msg  # (stringly-typed quotes base names only, whatever the working directory)
+
+    def bare(m):  # dry quotes other locations relative to the working directory: a file of the working directory quoted by its bare name
+        tok = m.group(1)
+        cand = norm_path(tok, root, cwd)
+        return cand if os.path.isfile(os.path.join(cwd, tok)) and os.path.isfile(os.path.join(root, cand)) else tok
+    return BARETOK.sub(bare, msg)
 
 
 def exec_case(case):
@@ -148,8 +162,55 @@ def exec_case(case):
                 res[cmd] = {"error": "exit %s %s" % (r.exit, r.err[-300:])}
             else:
                 res[cmd] = {"v": sorted([v["rule_id"], norm_path(v["file_path"], root, cwd), v["line"], v["column"],
-                                         norm_msg(v["message"], root, cwd)] for v in vs)}
+                                         norm_msg(v["message"], root, cwd, v["rule_id"].startswith("dry."))] for v in vs)}
         out[sp_full] = res
+    return out
+
+
+LIB_STEPS = [("pkg", "calc.py"), ("pkg/gen", "calc.py"), ("tests", "calc.py"), ("src", "calc.py"), ("", "pkg/calc.py"), ("pkg", "gen/calc.py"),
+             ("pkg", "."), ("tests", "."), ("pkg/gen", "."), ("pkg", "quiet.py"), ("pkg/gen", "../calc.py"), ("", "tests/calc.py"), ("", "src/calc.py")]
+
+
+def _lib_norm(vs, root, cwd):
+    return sorted([v.rule_id, norm_path(str(v.file_path), root, cwd), v.line, v.column, norm_msg(v.message, root, cwd, v.rule_id.startswith("dry."))] for v in vs)
+
+
+def lib_fresh(arg):
+    """Reference: a fresh process, working directory = project root, absolute spelling."""
+    root, rel_cwd, target = arg
+    os.chdir(root)
+    from src import Linter
+
+    full = os.path.normpath(os.path.join(root, rel_cwd, target))
+    return _lib_norm(Linter(project_root=root).lint(full), root, root)
+
+
+def lib_walk(arg):
+    """One long-lived process: the same relative spellings from one working directory after another."""
+    root, steps, shared = arg
+    os.chdir(root)
+    from src import Linter
+
+    lin = Linter(project_root=root)
+    out = []
+    for rel_cwd, target in steps:
+        cwd = os.path.join(root, rel_cwd)
+        os.chdir(cwd)
+        out.append(_lib_norm((lin if shared else Linter(project_root=root)).lint(target), root, cwd))
+    return out
+
+
+def exec_lib_case(case):
+    base = runner.new_dir("q")
+    root = os.path.join(base, case["parent"], "proj")
+    runner.write_tree(root, case["files"])
+    out = {"walks": [], "fresh": {}}
+    for st in LIB_STEPS:
+        r = runner.call(lib_fresh, (root,) + tuple(st), timeout=300)
+        out["fresh"]["%s|%s" % st] = {"v": r["value"]} if r.get("ok") else {"error": str(r)[:300]}
+    for steps, shared in case["walks"]:
+        r = runner.call(lib_walk, (root, steps, shared), timeout=600)
+        out["walks"].append({"steps": steps, "shared": shared, "res": {"v": r["value"]} if r.get("ok") else {"error": str(r)[:300]}})
     return out
 
 
@@ -191,6 +252,41 @@ def run(ctx):
         for sp_chunk in [sps[i:i + 3] for i in range(0, len(sps), 3)]:
             cases.append({"parent": p, "files": files, "spellings": sp_chunk, "cmds": cmds})
     ref_case = {"parent": "ref", "files": files, "spellings": ["dot", "dot+parallel"], "cmds": cmds}
+    lib_cases = []
+    for p in (["plain", "tests"] if ctx.quick else ["plain", "tests", "build", "with space", "fixtures"]):
+        walks = []
+        for k in range(3 if ctx.quick else 8):
+            steps = list(LIB_STEPS)
+            rng.shuffle(steps)
+            walks.append([[list(s) for s in steps], k % 2 == 0])
+        lib_cases.append({"parent": p, "files": files, "walks": walks})
+    lib_outs = runner.pmap(exec_lib_case, lib_cases, timeout=1200)
+    for case, o in zip(lib_cases, lib_outs):
+        if not o.get("ok"):
+            ctx.inconclusive_if(True, "library walk failed in harness: %s" % str(o)[:300])
+            continue
+        fresh = o["value"]["fresh"]
+        for w in o["value"]["walks"]:
+            if "error" in w["res"]:
+                ctx.discrepancy("lib-walk:run-error", "parent %r: %s" % (case["parent"], w["res"]["error"]), {"parent": case["parent"], "steps": w["steps"]}, files)
+                continue
+            for (rel_cwd, target), got in zip(w["steps"], w["res"]["v"]):
+                ref = fresh["%s|%s" % (rel_cwd, target)]
+                ctx.evaluations += 1
+                ctx.count("lib_walk_steps_compared")
+                if "error" in ref:
+                    ctx.inconclusive_if(True, "library reference failed: %s" % ref["error"])
+                    continue
+                a, b = Counter(map(tuple, ref["v"])), Counter(map(tuple, got))
+                if a:
+                    ctx.nontrivial([case["parent"], "lib-walk", rel_cwd, target])
+                if a != b:
+                    only_ref, only_var = list((a - b).elements()), list((b - a).elements())
+                    fams = sorted({r[0].split(".")[0] for r in only_ref + only_var})
+                    ctx.discrepancy("lib-walk:relative-spelling-after-chdir:%s" % ",".join(fams),
+                                    "project under .../%s/proj, one process (%s Linter), Linter.lint(%r) from <root>/%s after %d earlier calls: %d findings only in a fresh process given the absolute path (e.g. %r), %d only here (e.g. %r)" % (
+                                        case["parent"], "shared" if w["shared"] else "fresh", target, rel_cwd, w["steps"].index([rel_cwd, target]), len(only_ref), only_ref[:1], len(only_var), only_var[:1]),
+                                    {"parent": case["parent"], "steps": w["steps"], "shared": w["shared"], "expected": only_ref[:5], "observed": only_var[:5]}, files)
     outs = runner.pmap(exec_case, [ref_case] + cases, timeout=900)
     if not outs[0].get("ok"):
         ctx.inconclusive_if(True, "reference run failed: %s" % str(outs[0])[:300])
